@@ -152,15 +152,45 @@ def stage1(scratch, module, constants, invariants, simulate=None, seed=0, timeou
     return beh, dict(behaviours=n, states=states, distinct=distinct, wall_s=round(time.time() - t0, 1))
 
 
-def stage2(scratch, exe, beh, nslots, variant=0, extra_args=()):
+def stage2(scratch, exe, beh, nslots, variant=0, extra_args=(), nproc=8):
+    """Execute the behaviours on the real code.  The behaviours are split into `nproc`
+    contiguous blocks, one harness process each (process-global state of the library is
+    per block: a mismatch is reproduced from the start of its block).  Returns the trace,
+    statistics and the block size."""
     trace = os.path.join(scratch, "trace.ndjson")
     t0 = time.time()
-    env = dict(os.environ, GORACE="log_path=%s halt_on_error=0 exitcode=0" % os.path.join(scratch, "racelog"))
-    r = run([exe, "-in", beh, "-out", trace, "-slots", str(nslots), "-variant", str(variant)] + list(extra_args),
-            timeout=3600, env=env)
-    if r.returncode != 0:
-        raise Infra("stage 2 (harness) failed rc=%s:\n%s" % (r.returncode, r.stdout[-3000:]))
-    return trace, dict(wall_s=round(time.time() - t0, 1))
+    lines = open(beh).readlines()
+    n = len(lines)
+    if n < 64:
+        nproc = 1
+    bs = max(1, (n + nproc - 1) // nproc)
+    procs = []
+    for k in range(0, n, bs):
+        part = os.path.join(scratch, "beh_%d.json" % k)
+        open(part, "w").write("".join(lines[k:k + bs]))
+        out = os.path.join(scratch, "trace_%d.ndjson" % k)
+        env = dict(os.environ, GORACE="log_path=%s halt_on_error=0 exitcode=0" % os.path.join(scratch, "racelog%d" % k))
+        cmd = [exe, "-in", part, "-out", out, "-slots", str(nslots), "-variant", str(variant), "-behoffset", str(k)] \
+            + list(extra_args)
+        procs.append((subprocess.Popen(cmd, stdout=subprocess.PIPE, stderr=subprocess.STDOUT, text=True, env=env), out, part))
+    deadline = time.time() + 3600
+    with open(trace, "w") as g:
+        for p, out, part in procs:
+            try:
+                stdout, _ = p.communicate(timeout=max(1, deadline - time.time()))
+            except subprocess.TimeoutExpired:
+                for q, _, _ in procs:
+                    q.kill()
+                raise Infra("stage 2 (harness) timed out")
+            if p.returncode != 0:
+                for q, _, _ in procs:
+                    q.kill()
+                raise Infra("stage 2 (harness) failed rc=%s:\n%s" % (p.returncode, (stdout or "")[-3000:]))
+            with open(out) as f:
+                shutil.copyfileobj(f, g)
+            os.remove(out)
+            os.remove(part)
+    return trace, dict(wall_s=round(time.time() - t0, 1), processes=len(procs), block=bs)
 
 
 def shard_trace(trace, scratch, nshards):
